@@ -48,8 +48,11 @@ def harnesses(tier, seed):
         # map-only, known length: offset writes after the existing elements
         for target in ("vec", "fixed", "split"):
             for owners in ([1, 0], [0, 0]):
-                for (k, cap) in ((0, 0), (2, 2), (1, 8)):
-                    hs.append(h("M", target, "slice", n, 2, 1, owners, ones, k, max(cap, k + n) if target == "fixed" else cap))
+                # spare capacity: none / some but less than the input / enough
+                for (k, cap) in ((0, 0), (2, 2), (1, 8), (1, 2), (0, 1)):
+                    if target == "split" and (k, cap) in ((1, 2), (0, 1)):
+                        continue
+                    hs.append(h("M", target, "slice", n, 2, 1, owners, ones, k, cap))
         # map-only, unknown length: the bridge through SplitVec
         for target in ("vec", "fixed", "split"):
             for t in (1, 2):
@@ -66,8 +69,8 @@ def harnesses(tier, seed):
             for target in ("vec", "fixed", "split"):
                 for (t, c) in ((2, 1), (2, 2)):
                     for owners in owner_tables(n, t, c):
-                        for (k, cap) in ((0, 0), (2, 2), (1, 8), (2, 16)):
-                            hs.append(h("M", target, "slice", n, t, c, owners, tuple([1] * n), k, max(cap, k + n) if target == "fixed" else cap))
+                        for (k, cap) in ((0, 0), (2, 2), (1, 8), (2, 16), (1, 2), (0, 1), (2, 3)):
+                            hs.append(h("M", target, "slice", n, t, c, owners, tuple([1] * n), k, cap))
                 for src in ("iterf", "iter"):
                     for t in (1, 2):
                         for (k, cap) in ((0, 0), (1, 4), (2, 2)):
